@@ -77,8 +77,10 @@ Inductive qtemplate :=
 | QSync         (* SELECT json_quote(id) AS id, xattrs->'$._sync' AS s FROM $_keyspace ORDER BY id *)
 | QLast2        (* SELECT json_quote(id) AS id FROM $_keyspace ORDER BY id DESC LIMIT 2 *)
 | QBodyAEq (n : N)   (* ... WHERE CASE WHEN json_valid(body) THEN body->>'$.a' END = $n ORDER BY id, the argument bound as an unsigned integer *)
-| QSyncFirst.   (* SELECT xattrs->'$._sync' AS s, json_quote(id) AS id FROM $_keyspace ORDER BY id : the leading column is NULL
+| QSyncFirst    (* SELECT xattrs->'$._sync' AS s, json_quote(id) AS id FROM $_keyspace ORDER BY id : the leading column is NULL
                    (and left out of the row) for a document without that xattr *)
+| QCross.       (* SELECT json_quote(a.id || b.id || c.id || d.id) AS id FROM $_keyspace a, $_keyspace b, $_keyspace c, $_keyspace d
+                   ORDER BY a.id, b.id, c.id, d.id : n^4 rows from n documents - a result longer than any buffer *)
 
 Inductive sop :=
 | SKv (coll : string) (key : string) (op : kop)
@@ -264,6 +266,8 @@ Definition eval_query (q : qtemplate) (docs : list qdoc) : list string :=
                                 | Some v => ("{""s"":" ++ v ++ ",""id"":" ++ quote (fst (fst d)) ++ "}")%string
                                 | None => row_id (fst (fst d))
                                 end) sorted
+  | QCross => let ids := map (fun d => fst (fst d)) sorted in
+              flat_map (fun a => flat_map (fun b => flat_map (fun c => map (fun d => row_id (a ++ b ++ c ++ d)) ids) ids) ids) ids
   end.
 
 (* ------------------------------------------------------------------------------------------ *)
